@@ -75,6 +75,10 @@ def handle (args : List Sexp) : String :=
       let r := if mode == "pre" then eagerSubsPre t σ else eagerSubs t σ
       "ok " ++ toString (ntToSexp r)
     | _, _, _, _ => "err bad-args"
+  | [Sexp.atom "slicerename", o] =>
+    match o.asNats? with
+    | some [a, b, s, d] => "ok " ++ toString (slToSexp (sliceRename (mkSlice a b s d)))
+    | _ => "err bad-args"
   | [Sexp.atom "slice2", o, i] =>
     match o.asNats?, i.asNats? with
     | some [a, b, s, d], some [a', b', s', d'] =>
